@@ -451,7 +451,9 @@ pub fn run_fault(ops: &[Op], base: &[u8], fop: FOp, inject: Option<(Cb, u64)>, a
     let mut notes: Vec<String> = Vec::new();
     let kind = fop.kind();
     let cbname = inject.map_or("none".to_string(), |(c, _)| format!("{:?}", c));
-    let key = |what: &str| format!("{} op={} cb={}", what, kind, cbname);
+    // a fault that is an ordinary error return (not a panic) is outside C17's statement: what it breaks is C05 / C04
+    let owner = if inject.map_or(false, |(c, _)| c.is_error_return()) { "C05:" } else { "" };
+    let key = |what: &str| format!("{}{} op={} cb={}", owner, what, kind, cbname);
     let r = catch_unwind(AssertUnwindSafe(|| {
         let mut ex = ManuallyDrop::new(build(ops, base));
         let Some(prep) = prepare(&ex, fop, ops) else {
@@ -488,7 +490,7 @@ pub fn run_fault(ops: &[Op], base: &[u8], fop: FOp, inject: Option<(Cb, u64)>, a
                 }
             }
             Ok(()) => {
-                if inject.is_some() && out.fired {
+                if inject.map_or(false, |(c, _)| !c.is_error_return()) && out.fired {
                     fails.push(FaultFail { key: key("panic-swallowed"), detail: "the injected panic did not reach the caller".into() });
                 }
             }
@@ -640,7 +642,7 @@ fn worker_c17(tier: &str, shard: usize, nshards: usize, resume: Option<(usize, u
             let dry = run_fault(&ops, base, fop, None, 0);
             let mut executions = 1u64;
             if !dry.enabled {
-                println!("JOB {{\"job\":{},\"enabled\":false,\"executions\":1,\"points\":0,\"per_cb\":[0,0,0,0,0,0,0],\"leaks\":0,\"notes\":0}}", i);
+                println!("JOB {{\"job\":{},\"enabled\":false,\"executions\":1,\"points\":0,\"per_cb\":[0,0,0,0,0,0,0,0,0],\"leaks\":0,\"notes\":0}}", i);
                 i += nshards;
                 continue;
             }
@@ -692,7 +694,7 @@ fn worker_c17(tier: &str, shard: usize, nshards: usize, resume: Option<(usize, u
     0
 }
 
-fn main_c17(tier: &str, threads: usize, evidence: Option<&str>, replay_dir: &str, seed: i64) -> i32 {
+fn main_c17(tier: &str, threads: usize, evidence: Option<&str>, replay_dir: &str, seed: i64, prop: &str) -> i32 {
     use std::io::{BufRead, BufReader};
     use std::process::{Command, Stdio};
     let t0 = Instant::now();
@@ -752,7 +754,13 @@ fn main_c17(tier: &str, threads: usize, evidence: Option<&str>, replay_dir: &str
                             }
                         } else if let Some(rest) = line.strip_prefix("FAIL ") {
                             let parts: Vec<&str> = rest.splitn(3, " :: ").collect();
-                            if parts.len() == 3 {
+                            // keys of the form "C05:<key>" belong to C05 (error returns), everything else to C17
+                            let (fprop, k0) = match parts[0].split_once(':') {
+                                Some((p, k)) if p.len() == 3 && p.starts_with('C') => (p, k),
+                                _ => ("C17", parts[0]),
+                            };
+                            if parts.len() == 3 && fprop == prop {
+                                let parts = [k0, parts[1], parts[2]];
                                 let mut f = found.lock().unwrap();
                                 if let Some(x) = f.iter_mut().find(|x| x.0 == parts[0]) {
                                     x.3 += 1;
@@ -788,7 +796,8 @@ fn main_c17(tier: &str, threads: usize, evidence: Option<&str>, replay_dir: &str
                                 "{{\"engine\":\"fault-c17\",\"tier\":\"{}\",\"base\":{:?},\"fop\":\"{:?}\",\"fop_index\":{},\"inject\":{},\"aftermath\":{}}}",
                                 tier, base_list[job.base], fop, job.fop, if c < NCB as u64 { format!("[{},{}]", c, k) } else { "null".into() }, a
                             );
-                            {
+                            let abort_owner = if c < NCB as u64 && CB_ALL[c as usize].is_error_return() { "C05" } else { "C17" };
+                            if abort_owner == prop {
                                 let mut f = found.lock().unwrap();
                                 if let Some(x) = f.iter_mut().find(|x| x.0 == key) {
                                     x.3 += 1;
@@ -821,14 +830,14 @@ fn main_c17(tier: &str, threads: usize, evidence: Option<&str>, replay_dir: &str
     let found = found.into_inner().unwrap();
     let tt = totals.into_inner().unwrap();
     let machinery = machinery.into_inner().unwrap();
-    let dir = format!("{}/C17", replay_dir);
+    let dir = format!("{}/{}", replay_dir, prop);
     let _ = std::fs::create_dir_all(&dir);
     let mut found_json = Vec::new();
     for (key, detail, case, count) in &found {
         let fname: String = key.chars().map(|c| if c.is_ascii_alphanumeric() || c == '-' || c == '=' { c } else { '_' }).collect();
         let path = format!("{}/{}.json", dir, fname);
         let mut j: serde_json::Value = serde_json::from_str(case).unwrap_or(serde_json::json!({"raw": case}));
-        j["property"] = "C17".into();
+        j["property"] = prop.into();
         j["key"] = key.clone().into();
         j["detail"] = detail.clone().into();
         j["occurrences"] = (*count).into();
@@ -837,15 +846,15 @@ fn main_c17(tier: &str, threads: usize, evidence: Option<&str>, replay_dir: &str
             j["base_ops"] = names.into();
         }
         std::fs::write(&path, serde_json::to_string_pretty(&j).unwrap()).unwrap();
-        println!("FOUND property=C17 key={} replay={} count={} :: {}", key, path, count, detail);
+        println!("FOUND property={} key={} replay={} count={} :: {}", prop, key, path, count, detail);
         found_json.push(serde_json::json!({"key": key, "replay": path, "count": count}));
     }
     let cbs: BTreeMap<String, u64> = CB_ALL.iter().map(|c| (format!("{:?}", c), tt.5[*c as usize])).collect();
     let ev = serde_json::json!({
-        "property_id": "C17", "tier": tier, "seed": seed, "level": "fault_enumeration",
+        "property_id": prop, "tier": tier, "seed": seed, "level": "fault_enumeration",
         "coverage": {
             "evaluations": tt.0, "distinct_nontrivial": tt.2,
-            "rule": "one case = (base world, operation, callback kind, call index k); enumerated completely: every k below the number of calls of that kind observed in the unfaulted run of that operation on that base; each case is run with 6 aftermaths (drop; read everything then drop; clear then drop; remove every identifier then drop; Entry::add on every identifier then drop; Entry::remove + entry query on every identifier then drop); distinct_nontrivial counts cases (injection points), evaluations counts executions",
+            "rule": "one case = (base world, operation, callback kind, call index k); callback kinds SerializeErr / DeserializeErr make the k-th Serialize / Deserialize call of a component return an error instead of panicking (judged for C05, not C17); enumerated completely: every k below the number of calls of that kind observed in the unfaulted run of that operation on that base; each case is run with 6 aftermaths (drop; read everything then drop; clear then drop; remove every identifier then drop; Entry::add on every identifier then drop; Entry::remove + entry query on every identifier then drop); distinct_nontrivial counts cases (injection points), evaluations counts executions",
             "samples": found.iter().take(3).map(|f| serde_json::json!({"key": f.0, "case": serde_json::from_str::<serde_json::Value>(&f.2).unwrap_or_default()})).chain(std::iter::once(serde_json::json!({"base": base_list[base_list.len() / 2], "op": format!("{:?}", fops[5]), "note": "every callback index of every kind, 6 aftermaths each"}))).collect::<Vec<_>>(),
             "bases": base_list.len(), "base_depth": depth, "operations": fops.len(), "enabled_base_op_pairs": tt.1,
             "injection_points_per_callback_kind": cbs, "injection_points_per_operation": tt.6,
@@ -888,7 +897,7 @@ fn replay_c17(path: &str) -> i32 {
         println!("note: {}", n);
     }
     for f in &out.fails {
-        println!("VIOLATION property=C17 replay={} :: {} :: {}", path, f.key, f.detail);
+        println!("VIOLATION property={} replay={} :: {} :: {}", j["property"].as_str().unwrap_or("C17"), path, f.key, f.detail);
     }
     if out.fails.is_empty() { println!("no violation"); 0 } else { 1 }
 }
@@ -935,7 +944,7 @@ fn main() {
     let rc = match mode.as_str() {
         "c17-worker" => worker_c17(&tier, shard.0, shard.1, resume),
         "c11-worker" => c11::worker_c11(&tier, shard.0, shard.1, resume.map(|r| r.0)),
-        "c17" => main_c17(&tier, threads, evidence.as_deref(), &replay_dir, seed),
+        "c17" => main_c17(&tier, threads, evidence.as_deref(), &replay_dir, seed, if prop == "C11" { "C17" } else { &prop }),
         _ => c11::main_c11(&tier, threads, evidence.as_deref(), &replay_dir, seed, &prop),
     };
     std::process::exit(rc);
